@@ -64,6 +64,11 @@ def family(tier, seed):
     fam.append([d0, s1.seg([["/'g'", 'nodata', 0, 0, [P1, P2]]], 1, newobj=False, raw_flag=False),
                 s1.seg([[A, 'full', 3, 3]], 2)])
     fam.append([s1.seg([['/', 'nodata', 0, 0, [P2]]], 1, raw_flag=False), d0, s1.seg([[B, 'nodata', 2, 0, [P1]]], 1)])
+    # raw-data-only segments (no metadata block) re-using the previous object list, with the same / another chunk count as before
+    fam.append([d0, s1.seg([], 2, meta=False)])
+    fam.append([d0, s1.seg([], 3, meta=False)])
+    fam.append([s1.seg([[A, 'full', 3, 3], [B, 'full', 4, 1]], 1), s1.seg([], 1, meta=False), s1.seg([], 2, meta=False)])
+    fam.append([s1.seg([[A, 'full', 3, 2], [B, 'full', 3, 2]], 2, inter=True), s1.seg([], 2, meta=False, inter=True)])
     return fam
 
 
